@@ -67,6 +67,8 @@ from translate_fn import ANY, REC, LIST
 SPECS += [
     Spec(GROUP, "pdubase_mk", "toy.py", "PduBase.mk", [("data", BYTES)],
          records={"PduBase": {"pfb": REC("PFB"), "did": OPT(INT)}, "PFB": {"fmt": INT, "nad": BOOL, "did": BOOL, "pni": INT}}),
+    Spec(GROUP, "pdubase_mk2", "toy.py", "PduBase.mk2", [("data", BYTES), ("more", BOOL)],
+         records={"PduBase": {"pfb": REC("PFB"), "did": OPT(INT)}, "PFB": {"fmt": INT, "nad": BOOL, "did": BOOL, "pni": INT}}),
     Spec(GROUP, "pdubase_enc", "toy.py", "PduBase.enc", [("tail", BYTES)],
          binds=[("self.pfb", "pfb", REC("PFB")), ("self.did", "did", INT)],
          records={"PFB": {"fmt": INT, "nad": BOOL, "did": BOOL, "pni": INT}}),
@@ -74,3 +76,26 @@ SPECS += [
     Spec(GROUP, "anyret", "toy.py", "anyret", [("x", INT)], ret=ANY),
 ]
 SMALL_INT = SMALL_INT + ("batch3",)
+from translate_fn import STR
+SPECS += [
+    Spec(GROUP, "brty_kind", "toy.py", "brty_kind", [("brty", STR), ("other", OPT(STR))]),
+]
+SPECS += [
+    Spec(GROUP, "mknorm", "toy.py", "mknorm", [("x", INT), ("flag", BOOL), ("opt", OPT(INT))],
+         records={"Norm": {"did": INT, "data": BYTES}}),
+]
+SPECS += [
+    Spec(GROUP, "socks_shuffle", "toy.py", "Socks.shuffle", [("a", INT), ("b", INT)],
+         binds=[("self.sock_list", "sock_list", LIST(INT)), ("self.send_list", "send_list", LIST(INT))],
+         stores=["self.sock_list", "self.send_list"], stmts=(0, 6), result=["local", "self.sock_list", "self.send_list"]),
+]
+SMALL_INT = SMALL_INT + ("socks_shuffle",)
+SPECS += [
+    Spec(GROUP, "nlen_pack", "toy.py", "nlen_pack", [("data", BYTES), ("size", INT)], stmts=(1, 4)),
+]
+SPECS += [
+    Spec(GROUP, "socks_insert", "toy.py", "Socks2.insert", [("socket", INT), ("ok", BOOL)],
+         binds=[("self.sock_list", "sock_list", LIST(INT))], stores=["self.sock_list"], stmts=(0, 2),
+         result=["ok", "local", "self.sock_list"]),
+]
+SMALL_INT = SMALL_INT + ("socks_insert",)
